@@ -43,8 +43,23 @@ LEVEL = 'proof'
 TECHNIQUE = ('Lean 4 proof: inductive invariants over the step relation of an interleaving model (any number of '
              'request threads, any schedule, the sweeper and the clock), tied to the real RamSession / FileSession / '
              'session tool by per-step snapshot comparison under a deterministic scheduler of real threads')
-LEVEL_TEXT = 'proof (partial): see docs/C13.md'
-LEVEL_NOTE = 'see docs/C13.md'
+LEVEL_TEXT = ('Proved in Lean for ANY number of request threads, ANY schedule (request steps, the clean_up sweeper, the '
+              'clock) and every initial cache/lock-table state, at the granularity of single dict/RLock operations: the '
+              'repaired RamSession protocol is mutually exclusive, loses no update, never fails in release_lock, leaves no '
+              'lock owned by a finished request and cannot deadlock; the unrepaired protocol is mutually exclusive without '
+              'sweeper steps and is proved NOT mutually exclusive with them (F20, witness by decide, fixed in /repo). '
+              'FileSession: mutual exclusion / no lost update for any number of threads, processes and clean_up passes and '
+              'any lock-timeout placement, relative to the FileLock contract. Request level: for every fault plan (locking '
+              'mode x backend x handler script incl. regenerate x outcome x plain/generator/streamed body completed, '
+              'abandoned or raising x failing storage x ANY user hooks) the lock is released once close() has run. '
+              'Partial: the atomic-step assumption (bytecode atomicity of single dict/lock operations, OS scheduling) and '
+              'filelock/RLock correctness are parameters; the file model is tied to the code only through request-level '
+              'plans and the multi-process counter test; one contended id, one sweeper, no memcached backend.')
+LEVEL_NOTE = ('Trusted: Lean kernel (propext, Classical.choice, Quot.sound only); the hand models as validated by per-step '
+              'snapshot comparison with real RamSession threads + real clean_up under a deterministic scheduler (all '
+              'schedules with <=1 / <=2 pre-emptions, random and window-targeted ones) and by journal comparison of '
+              'request-level fault plans through in-process WSGI; threading.RLock, filelock.FileLock and the GIL atomicity '
+              'of single dict operations are contracts of the model; the server is assumed to call close() (PEP 3333).')
 TRUSTED_BASE = [
     'atomic-step assumption: each single dict / RLock operation of CPython is atomic (GIL); everything between two '
     'operations on the shared tables is thread-local',
@@ -98,8 +113,12 @@ def ram_oracle(case, toks, obs):
         bad.append(('a read-modify-write of the session counter was overtaken by another write (lost update)',
                     sig('lost_update')))
     for name, exc in sorted(obs['errors'].items()):
-        bad.append(('request thread %s: releasing the session lock raised %s' % (name, exc),
-                    sig('release_error')))
+        if name == 'S':
+            bad.append(('clean_up() raised %s while releasing a lock object it had popped' % exc,
+                        sig('sweeper_release_error')))
+        else:
+            bad.append(('request thread %s: releasing the session lock raised %s' % (name, exc),
+                        sig('release_error')))
     finished = [r for r, v in obs['results'].items() if r not in obs['unfinished']]
     leaked = [h for h in obs['held_by'] if h in finished]
     if leaked and not obs['errors']:
@@ -271,16 +290,30 @@ def ram_stream(ctx, variant, n_random, n_window, preempt_bound, compare=True):
         items.append(run_ram_case(gen_ram_window(ctx.rng)))
     check_ram(ctx, items, variant, compare)
     # systematic: all schedules with <= preempt_bound pre-emptions (2 request threads + sweeper)
+    chunks = [(name, cache, tbl, order, preempt_bound)
+              for name, cache, tbl in INITS[:4]
+              for order in itertools.permutations(['0', '1', 'S'])]
+    if ctx.quick():
+        results = [_enum_chunk(c) for c in chunks]
+    else:
+        results = common.parallel_map(_enum_chunk, chunks)
     count = 0
-    for name, cache, tbl in INITS[:4]:
-        items = []
-        for order, pre in enum_policies(2, preempt_bound, 26):
-            snaps, toks, obs = run_policy(2, cache, tbl, order, pre)
-            items.append(({'kind': 'ram', 'n': 2, 'cache': cache, 'tbl': tbl, 'init': name}, snaps, toks, obs))
+    for items in results:
         count += len(items)
         check_ram(ctx, items, variant, compare)
     ctx.extra['ram_preemption_bounded_schedules'] = ctx.extra.get('ram_preemption_bounded_schedules', 0) + count
     ctx.extra['ram_preemption_bound'] = preempt_bound
+
+
+def _enum_chunk(args):
+    name, cache, tbl, order, bound = args
+    items = []
+    for o, pre in enum_policies(2, bound, 26):
+        if o != order:
+            continue
+        snaps, toks, obs = run_policy(2, cache, tbl, order, pre)
+        items.append(({'kind': 'ram', 'n': 2, 'cache': cache, 'tbl': tbl, 'init': name}, snaps, toks, obs))
+    return items
 
 
 # ------------------------------------------------------------------------------------------------
@@ -299,6 +332,13 @@ def check_req(ctx, plans, compare=True):
     for idx, p in enumerate(plans):
         r = REQ.run_plan(p)
         j = ','.join(r['journal']) or '-'
+        if r.get('setup_failed'):
+            ctx.case(p, nontrivial=False, key=lines[idx])
+            ctx.oracle_fail(p, 'a plain request with implicit locking that only stores a value in a new %s session '
+                               'answered %s: %s' % ('file' if p['file'] else 'ram', r['status'],
+                                                    r['setup_failed'][-200:].replace('\n', ' ')),
+                            'req:plain_locked_request_failed:%s' % ('file' if p['file'] else 'ram'))
+            continue
         ctx.case(p, nontrivial=(':1:' in j), key=lines[idx])
         ctx.count('req:' + p['mode'])
         ctx.count('req:backend=' + ('file' if p['file'] else 'ram'))
@@ -474,24 +514,28 @@ def run(ctx):
             run_one(ctx, w, variant)
     for c in corpus_cases():
         run_one(ctx, c, variant)
-    ram_stream(ctx, variant, ctx.budget(250, 20000), ctx.budget(250, 20000), ctx.budget(1, 2))
+    ram_stream(ctx, variant, ctx.budget(250, 6000), ctx.budget(250, 6000), ctx.budget(1, 2))
     check_req(ctx, targeted_plans(ctx.rng))
-    check_req(ctx, [REQ.gen_plan(ctx.rng) for _ in range(ctx.budget(600, 20000))])
+    check_req(ctx, [REQ.gen_plan(ctx.rng) for _ in range(ctx.budget(600, 12000))])
     check_wsgi(ctx, wsgi_systematic())
-    check_wsgi(ctx, [WSGI.gen_case(ctx.rng) for _ in range(ctx.budget(150, 5000))])
-    check_file_processes(ctx, 2, ctx.budget(15, 200), ctx.budget(5, 60))
-    if not ctx.quick():
-        check_file_processes(ctx, 4, 100, 60)
+    check_wsgi(ctx, [WSGI.gen_case(ctx.rng) for _ in range(ctx.budget(150, 2500))])
+    if any('file' in str(sig) for _, _, sig in ctx.oracle_failures):
+        # a file lock that is not released would make the worker processes wait for ever
+        ctx.note('multi-process file test skipped: the file backend already failed the oracle')
+    else:
+        check_file_processes(ctx, 2, ctx.budget(15, 200), ctx.budget(5, 60))
+        if not ctx.quick():
+            check_file_processes(ctx, 4, 100, 60)
 
 
 def search(ctx, around=None):
     _setup_cherrypy()
     variant, _ = RAM.detect_variant()
-    ram_stream(ctx, variant, 3000, 3000, 1, compare=False)
+    ram_stream(ctx, variant, 1500, 1500, 1, compare=False)
     check_req(ctx, targeted_plans(ctx.rng), compare=False)
-    check_req(ctx, [REQ.gen_plan(ctx.rng) for _ in range(6000)], compare=False)
+    check_req(ctx, [REQ.gen_plan(ctx.rng) for _ in range(3000)], compare=False)
     check_wsgi(ctx, wsgi_systematic())
-    check_wsgi(ctx, [WSGI.gen_case(ctx.rng) for _ in range(1500)])
+    check_wsgi(ctx, [WSGI.gen_case(ctx.rng) for _ in range(600)])
 
 
 def replay(ctx, case):
